@@ -1,7 +1,9 @@
 #![allow(dead_code)]
 mod alloc;
 mod bz2;
+mod entries;
 mod findings;
+mod registry;
 mod panics;
 mod runner;
 mod wire;
